@@ -78,6 +78,14 @@ let of_rerror (e : Regex.rerror) : t =
 
 let outcome = Drv_check.outcome
 
+(* fuel values repeat: build each Peano numeral once *)
+let fuel_cache : (int, Extracted.Datatypes.nat) Hashtbl.t = Hashtbl.create 4
+let fuel_of (v : t) =
+  let i = int_ v in
+  match Hashtbl.find_opt fuel_cache i with
+  | Some n -> n
+  | None -> let n = nat_of_int i in Hashtbl.replace fuel_cache i n; n
+
 let () =
   register "regex" (fun v ->
       match v with
@@ -112,7 +120,7 @@ let () =
           outcome (fun (d, states) ->
               List [Atom "ok"; Dfa_io.of_dfa_with d [];
                     List (Atom "states" :: List.map (fun (s, i) -> List [of_set s; sn i]) states)])
-            (Subset.dfa_from_regex (pick_of pick) (nat_of_int (int_ fuel)) submap r) of_serror
+            (Subset.dfa_from_regex (pick_of pick) (fuel_of fuel) submap r) of_serror
       | _ -> raise (Shape "subset args"))
 
 (* ---- Spec/Lang.v: the proved judge ----
@@ -142,7 +150,7 @@ let () =
   register "equiv" (fun v ->
       match v with
       | List [d; e; fuel] ->
-          of_result of_tl (Lang.equiv_dfa_expr (nat_of_int (int_ fuel)) (Dfa_io.cdfa_of d) (expr_of e))
+          of_result of_tl (Lang.equiv_dfa_expr (fuel_of fuel) (Dfa_io.cdfa_of d) (expr_of e))
       | _ -> raise (Shape "equiv args"))
 
 let () =
@@ -150,5 +158,5 @@ let () =
       match v with
       | List [d; e; fuel] ->
           let (d, _) = Dfa_io.dfa_parts d in
-          of_result of_witem (Lang.equiv_wdfa_expr (nat_of_int (int_ fuel)) d (expr_of e))
+          of_result of_witem (Lang.equiv_wdfa_expr (fuel_of fuel) d (expr_of e))
       | _ -> raise (Shape "wequiv args"))
